@@ -18,8 +18,8 @@ import (
 // model of the resumption policy (DESIGN.md Appendix D).
 
 var resFaults = []string{"rotate-keep-old", "rotate-drop-old", "restart-keep-key", "restart-lose-key", "change-suites", "change-client-auth", "disable-tickets", "enable-tickets", "evict-by-other-name", "other-server-shared-key", "other-server-own-key",
-	"change-max-version", "clone-config", "ticket-byte-flip", "ticket-truncated", "ticket-extended", "ticket-suite-not-offered", "ticket-genuine-via-reference-client", "ticket-from-dropped-key", "clock-jump"}
-var resReach = []string{"resumed", "full-handshake", "resumed-with-old-key-ticket-refreshed", "fallback-after-rotation", "fallback-after-restart", "fallback-suite-change", "fallback-client-auth", "fallback-tickets-off", "fallback-evicted", "fallback-forged-ticket", "completeness-checked", "soundness-checked", "master-equal-checked", "wire-decoded-resumed", "gm-mode", "tls-mode", "client-cert-in-ticket", "history>=4", "refclient-tls12", "wire-decoded-resumed-tls12"}
+	"change-max-version", "clone-config", "ticket-byte-flip", "ticket-truncated", "ticket-extended", "ticket-suite-not-offered", "ticket-genuine-via-reference-client", "clock-jump", "connection-damaged-after-ticket", "change-client-cas"}
+var resReach = []string{"resumed", "full-handshake", "resumed-with-old-key-ticket-refreshed", "fallback-after-rotation", "fallback-suite-change", "fallback-client-auth", "fallback-tickets-off", "fallback-evicted", "fallback-forged-ticket", "completeness-checked", "soundness-checked", "master-equal-checked", "wire-decoded-resumed", "gm-mode", "tls-mode", "client-cert-in-ticket", "history>=4", "refclient-tls12", "wire-decoded-resumed-tls12", "policy-forbids-failed", "ticket-seen-in-failed-handshake"}
 
 func init() {
 	register(Family{Name: "tls-resumption", Prop: "C16", ID: 1601, Weight: 1, FaultNames: resFaults, ReachNames: resReach, Run: runResumption})
@@ -33,6 +33,7 @@ type resSrv struct {
 	policy     gmtls.ClientAuthType
 	ticketsOff bool
 	maxVers    uint16 // TLS mode: 0 = default (TLS 1.2)
+	otherCAs   bool   // ClientCAs switched to a root that did not issue the client's certificate
 	ent        *simkit.Stream
 	keylog     *bytes.Buffer
 }
@@ -56,7 +57,7 @@ func keyBytes(seed uint64, gen int) [32]byte {
 }
 
 func (sv *resSrv) sig() string {
-	return fmt.Sprintf("keys=%v suites=%x policy=%d off=%v maxvers=%x", sv.keys, sv.suites, sv.policy, sv.ticketsOff, sv.maxVers)
+	return fmt.Sprintf("keys=%v suites=%x policy=%d off=%v maxvers=%x othercas=%v", sv.keys, sv.suites, sv.policy, sv.ticketsOff, sv.maxVers, sv.otherCAs)
 }
 
 // plainHandshake returns the plaintext handshake messages of a captured
@@ -117,6 +118,13 @@ func runResumption(c *simkit.Choice, r *simkit.Rec) {
 		} else {
 			cfg.Certificates = []gmtls.Certificate{pki.GMStd("tlsrsa")}
 			cfg.ClientCAs = pki.Pool("rsaCA")
+		}
+		if sv.otherCAs {
+			if gm {
+				cfg.ClientCAs = pki.Pool("caB")
+			} else {
+				cfg.ClientCAs = pki.Pool("caA")
+			}
 		}
 		cfg.CipherSuites = sv.suites
 		cfg.MaxVersion = sv.maxVers
@@ -204,10 +212,66 @@ func runResumption(c *simkit.Choice, r *simkit.Rec) {
 		done       bool
 	}
 	// one connection of the gmtls client (or the reference client when ref != nil)
-	connect := func(tag string, sv *resSrv, ccfg *gmtls.Config, ref *reftls.ClientCfg) *connOut {
+	tainted := map[string]bool{} // tickets delivered in handshakes the client did not complete
+	connect := func(tag string, sv *resSrv, ccfg *gmtls.Config, ref *reftls.ClientCfg, fault int) *connOut {
 		out := &connOut{}
 		capt := simkit.NetCfg{Capture: true}
 		a, b := s.NewConnPair("c"+tag, "s"+tag, capt, capt)
+		if fault > 0 {
+			// an in-path fault on the server's last flight: client <-> (ra | rb) <-> server
+			var ra, rb *simkit.Conn
+			a, ra = s.NewConnPair("c"+tag, "rc"+tag, capt, capt)
+			rb, b = s.NewConnPair("rs"+tag, "s"+tag, capt, capt)
+			s.Spawn("relay-c2s"+tag, 2, func() {
+				buf := make([]byte, 2048)
+				for {
+					n, err := ra.Read(buf)
+					if n > 0 {
+						rb.Write(buf[:n])
+					}
+					if err != nil {
+						rb.Close()
+						return
+					}
+				}
+			})
+			s.Spawn("relay-s2c"+tag, 3, func() {
+				hdr := make([]byte, 5)
+				afterCCS := false
+				for {
+					if n, err := readFull(rb, hdr); err != nil {
+						ra.Write(hdr[:n])
+						ra.Close()
+						return
+					}
+					rec := make([]byte, 5+int(hdr[3])<<8+int(hdr[4]))
+					copy(rec, hdr)
+					if n, err := readFull(rb, rec[5:]); err != nil {
+						ra.Write(rec[:5+n])
+						ra.Close()
+						return
+					}
+					switch {
+					case afterCCS && fault == 1:
+						rec[5+len(rec[5:])/2] ^= 0x10 // the server's Finished no longer authenticates
+						afterCCS = false
+						fault = -1
+					case afterCCS && fault == 2:
+						ra.Close() // the stream ends before the server's Finished
+						rb.Close()
+						return
+					case rec[0] == reftls.RecCCS && fault == 3:
+						ra.Close() // the stream ends right after the NewSessionTicket
+						rb.Close()
+						return
+					}
+					if rec[0] == reftls.RecCCS {
+						afterCCS = true
+					}
+					ra.Write(rec)
+				}
+			})
+		}
 		cdone, sdone := &simkit.Flag{Name: "c"}, &simkit.Flag{Name: "s"}
 		s.Spawn("cli"+tag, 0, func() {
 			defer cdone.Set()
@@ -307,6 +371,10 @@ func runResumption(c *simkit.Choice, r *simkit.Rec) {
 				return
 			}
 		}
+		if tainted[string(offered)] && !viaRef {
+			fail("unestablished-session-offered", site, "the client offered a ticket it had received in a handshake that it never completed (the server's Finished was never verified, RFC 5077 3.3)")
+			return
+		}
 		it := issued[string(offered)]
 		if it != nil && !viaRef && it.name != dialled {
 			fail("foreign-session-offered", site, fmt.Sprintf("while dialling %q the client offered a ticket it had obtained from %q (session cache mixes server names)", dialled, it.name))
@@ -327,10 +395,39 @@ func runResumption(c *simkit.Choice, r *simkit.Rec) {
 		if gm {
 			vers = gmtls.VersionGMSSL
 		}
+		// the client certificate (issued by caA / rsaCA) verifies only while that root is among the ClientCAs
+		caOK := !sv.otherCAs
 		resumable := !sv.ticketsOff && it != nil && inKeys(it.gen) && it.vers == vers && contains(ch.Suites, it.suite) &&
 			(sv.suites == nil || contains(sv.suites, it.suite)) &&
 			!((sv.policy == gmtls.RequireAnyClientCert || sv.policy == gmtls.RequireAndVerifyClientCert) && !it.clientCert) &&
-			!(sv.policy == gmtls.NoClientCert && it.clientCert)
+			!(sv.policy == gmtls.NoClientCert && it.clientCert) &&
+			!(it.clientCert && sv.policy >= gmtls.VerifyClientCertIfGiven && !caOK)
+		// would a full handshake be acceptable? The gmtls client only presents a
+		// certificate whose issuer the CertificateRequest names; the reference client
+		// presents what it has.
+		present := clientHasCert && (caOK || viaRef) && sv.policy != gmtls.NoClientCert
+		fullOK := true
+		switch sv.policy {
+		case gmtls.RequireAnyClientCert:
+			fullOK = present
+		case gmtls.RequireAndVerifyClientCert:
+			fullOK = present && caOK
+		case gmtls.VerifyClientCertIfGiven:
+			fullOK = !present || caOK
+		}
+		mustResume := resumable && it.cfgSig == sv.sig() && sv.suites != nil
+		if !fullOK && !mustResume {
+			// a full handshake cannot succeed under the current policy, and resumption
+			// is not owed: failing on both ends is right, so is a permitted resumption
+			if hsOK && !(resumed && resumable) {
+				fail("completed-but-policy-forbids", site, fmt.Sprintf("client-certificate policy %d with ClientCAs that do not cover the client's certificate, yet the connection completed (resumed=%v)", sv.policy, resumed))
+				return
+			}
+			if !hsOK {
+				r.Reach(idx(resReach, "policy-forbids-failed"))
+				return
+			}
+		}
 		if !hsOK {
 			// neither resumed nor fell back: an error surfaced
 			fail("connection-failed", site, fmt.Sprintf("connection to server %s failed instead of resuming or falling back: client=%v server=%v ref=%v (offered ticket %d bytes, known=%v, forged=%v)", sv.name, out.cerr, out.serr, out.refErr, len(offered), it != nil, forged))
@@ -350,6 +447,8 @@ func runResumption(c *simkit.Choice, r *simkit.Rec) {
 				why = "the session's suite was not offered"
 			case sv.suites != nil && !contains(sv.suites, it.suite):
 				why = "the session's suite is no longer configured"
+			case it.clientCert && sv.policy >= gmtls.VerifyClientCertIfGiven && !caOK:
+				why = "the session's client certificate does not verify against the current ClientCAs"
 			default:
 				why = "the session's client certificates are incompatible with the current ClientAuth policy"
 			}
@@ -536,7 +635,7 @@ func runResumption(c *simkit.Choice, r *simkit.Rec) {
 		for step := 0; step < nops && !violated() && r.HarnessErr == ""; step++ {
 			fixSuites()
 			sv := srvs[c.Choose(len(srvs), simkit.LOp)]
-			op := c.Weighted([]int{10, 3, 2, 2, 2, 2, 1, 3, 3, 1, 2, 2}, simkit.LOp)
+			op := c.Weighted([]int{10, 3, 2, 2, 2, 2, 1, 3, 3, 1, 2, 2, 2, 2}, simkit.LOp)
 			if step == 0 {
 				op = 0
 			}
@@ -550,7 +649,7 @@ func runResumption(c *simkit.Choice, r *simkit.Rec) {
 						r.Fault(idx(resFaults, "other-server-own-key"))
 					}
 				}
-				out := connect(fmt.Sprint(step), sv, mkClient("server.sim", clientSuites), nil)
+				out := connect(fmt.Sprint(step), sv, mkClient("server.sim", clientSuites), nil, 0)
 				judge(step, sv, out, false, false, clientSuites, "server.sim")
 			case 1: // rotate
 				keep := c.Bool(1, 2, simkit.LFault)
@@ -614,7 +713,7 @@ func runResumption(c *simkit.Choice, r *simkit.Rec) {
 				history = append(history, "connect(E:server2.sim)")
 				r.Fault(idx(resFaults, "evict-by-other-name"))
 				if gm {
-					out := connect(fmt.Sprint(step)+"e", evict, mkClient("server2.sim", allSuites), nil)
+					out := connect(fmt.Sprint(step)+"e", evict, mkClient("server2.sim", allSuites), nil, 0)
 					judge(step, evict, out, false, false, allSuites, "server2.sim")
 				}
 			case 8: // forged / foreign ticket through the reference client
@@ -687,10 +786,35 @@ func runResumption(c *simkit.Choice, r *simkit.Rec) {
 				if len(ticket) == 0 {
 					rc.Ticket = nil
 				}
-				out := connect(fmt.Sprint(step)+"r", sv, nil, rc)
+				out := connect(fmt.Sprint(step)+"r", sv, nil, rc, 0)
 				if len(ticket) > 0 || !forged {
 					judge(step, sv, out, true, forged, offer, "server.sim")
 				}
+			case 12: // a connection whose last server flight is damaged in transit: nothing of it may be reused
+				if len(history) == 0 {
+					continue
+				}
+				kind := 1 + c.Choose(3, simkit.LFault)
+				history = append(history, fmt.Sprintf("faulty-connect(%s,kind=%d)", sv.name, kind))
+				r.Fault(idx(resFaults, "connection-damaged-after-ticket"))
+				out := connect(fmt.Sprint(step)+"f", sv, mkClient("server.sim", clientSuites), nil, kind)
+				if out.cerr == nil {
+					fail("completed-despite-fault", map[bool]string{true: "gmssl", false: "tls"}[gm], fmt.Sprintf("the client completed a handshake whose server Finished never arrived intact (fault kind %d)", kind))
+					return
+				}
+				for _, m := range plainHandshake(out.s2c) {
+					if m.Type == reftls.HsNewSessionTicket {
+						if t, err := reftls.ParseNewSessionTicket(m.Body); err == nil && len(t.Ticket) > 0 {
+							tainted[string(t.Ticket)] = true
+							r.Reach(idx(resReach, "ticket-seen-in-failed-handshake"))
+						}
+					}
+				}
+			case 13: // the set of acceptable client CAs changes
+				sv.otherCAs = !sv.otherCAs
+				mkCfgKeepKeys(sv, mkCfg)
+				r.Fault(idx(resFaults, "change-client-cas"))
+				history = append(history, fmt.Sprintf("clientCAs(%s,other=%v)", sv.name, sv.otherCAs))
 			case 11: // the server continues with a Clone of its configuration: nothing may change
 				sv.cfg = sv.cfg.Clone()
 				r.Fault(idx(resFaults, "clone-config"))
